@@ -408,7 +408,7 @@ DocEval(t, def, env, d) ==
          IN IF lat # {} \/ Cardinality(vis) > 1 THEN DR(UNS, ads)            \* used before / defined twice: the manual is silent
             ELSE IF vis # {} THEN
               LET f == d.defs[CHOOSE i \in vis : TRUE]
-                  st == DocDefStatus(f, d.info, d.cs)
+                  st == f.st                        \* DocDefStatus of the definition
                   devs == ads \cup UNION {ArgDevs(vals[i], d.radix) : i \in {j \in 1..n : IsVal(vals[j])}}
               IN IF st # "ok" THEN DR(UNS, ads)
                  ELSE IF \E i \in 1..n : vals[i].t = "E" THEN DR(ERR, ads)
